@@ -1,14 +1,16 @@
 (* C08 — Formatting a program does not change what it means.
-   Property theorems only; proofs live in Proofs/Fmt2P.v and Proofs/Fmt2Q.v.
+   Property theorems only; proofs live in Proofs/Fmt3P.v and Proofs/Fmt3Q.v.
 
-   Model/Fmt2.v (Model/Fmt.v extended by maps, tuple-struct values, table literals, comments, enum definitions, function
-   definitions with arms, match expressions, patterns and set/matrix comprehensions):
+   Model/Fmt3.v (Model/Fmt.v extended by maps, tuple-struct values, table literals, comments, enum definitions, function
+   definitions with arms, match expressions, patterns and set/matrix comprehensions — second round — and by STATE MACHINES:
+   specification, implementation with transition / output / asynchronous arms and guard lists, instance expressions —
+   third round, section 9 below):
    [fmt_prog false] is the canonical printer of the modelled subset, [fmt_prog true] the faithful model of
    src/syntax/src/formatter.rs (text mode) on that subset, [parse_tok] a recursive-descent parser over the same tokens
    (blanks and newlines are tokens).  Comparison (1) of the check ties the real formatter's text to [render (fmt_prog true p)],
    comparison (2) observes the round trip on the implementation itself. *)
 From Coq Require Import List ZArith String.
-From MechV Require Import Base.Sexp Base.Obs Model.Fmt2 Proofs.Fmt2P Proofs.Fmt2Q.
+From MechV Require Import Base.Sexp Base.Obs Model.Fmt3 Proofs.Fmt3P Proofs.Fmt3Q.
 Import ListNotations.
 Open Scope string_scope.
 Open Scope list_scope.
@@ -177,3 +179,123 @@ Example C08_example_extension :
      "{ a * 1 | a ← a, a > 1, z := 1 }" ++ nl ++ "[ a | [… z] ← [1 1] ]" ++ nl)%string.
 Proof. cbv zeta. repeat split; vm_compute; reflexivity. Qed.
 Print Assumptions C08_example_extension.
+
+(* 9. State machines (third round).  C08_fmt_parse, C08_fmt_idempotent, C08_holds and C08_holds_roundtrip above now
+      quantify over programs that may also contain
+        * the specification   #name(in<k>, …) ⇒ <k> :=  ├ :State(x<k>, …)  …  └ :State.        (SFsmSpec)
+        * the implementation  #name(in<k>, …) -> start   followed by the state arms
+              :State(p, …) -> :Next(e, …) => e ~> :Other(e)          (ATrans: one or more transitions)
+              :State(p, …)   ├ guard -> …   ├ guard => …   └ * -> …   (AGuard: one or more guards)       (SFsmImpl)
+        * the instance        #name   /   #name(e, k: e)   as an expression (EFsm) wherever the grammar takes an
+          `expression`: statement right-hand sides, matrix / set / tuple elements, record / map values, call arguments.
+      The patterns of a state machine ([fpat]) have arbitrary expressions as leaves (Pattern::Expression), tuples,
+      tuple-structs `:State(…)` and array patterns with spread / rest; [wf_fpat true] is the value syntax of
+      state_machines.rs::fsm_value (no wildcard, no spread / rest).  The component round trips, for all sizes: *)
+
+(* every well-formed state-machine pattern is read back from its text, whatever follows it (an expression may follow) *)
+Theorem C08_fsm_pattern_roundtrip : forall (p : fpat) (v : bool) (n : nat) (rest : list tok),
+  wf_fpat v p = true -> List.length (fmt_fpat false p) < n -> R_exp rest ->
+  pfpat n (fmt_fpat false p ++ rest) = Some (p, rest).
+Proof. exact (fun p v n rest Hw => fpat_all_ok p v Hw n rest). Qed.
+Print Assumptions C08_fsm_pattern_roundtrip.
+
+(* every well-formed arm (transitions or guards) is read back, followed by the next arm or by the final period *)
+Theorem C08_fsm_arm_roundtrip : forall (a : arm) (n : nat) (rest : list tok),
+  wf_arm a = true -> List.length (fmt_arm false a) < n -> arm_follow n rest ->
+  parm n (fmt_arm false a ++ rest) = Some (a, rest).
+Proof. exact (fun a n rest => parm_ok n a rest). Qed.
+Print Assumptions C08_fsm_arm_roundtrip.
+
+(* an instance is read back as an `expression` (never as a formula: `#m(1) + 2` is not in the grammar) *)
+Theorem C08_fsm_instance_roundtrip : forall (e : ex) (n : nat) (rest : list tok),
+  wf e = true -> is_exprF e = true -> List.length (fmt false e) <= n -> R_exp rest ->
+  pexpr n (fmt false e ++ rest) = Some (e, rest).
+Proof. exact pexprF_at. Qed.
+Print Assumptions C08_fsm_instance_roundtrip.
+
+(* formatter.rs prints an arm as the canonical printer does when its expressions are outside the defect classes and it
+   has no output transition directly after `-> target` inside a guard *)
+Theorem C08_holds_fsm_arm : forall a : arm,
+  Forall clean (arm_exprs a) -> arm_koutd a = false -> fmt_arm true a = fmt_arm false a.
+Proof. exact fmt_arm_agree. Qed.
+Print Assumptions C08_holds_fsm_arm.
+
+(* ... and inside that class the faithful model of formatter.rs violates the property: state_machines.rs::fsm_guard tries
+   a statement transition first, so `├ z > 1 -> a => 1` is read as the assignment `a = > 1` and the text does not parse;
+   the canonical printer writes the output operator `⇒` there and round-trips *)
+Theorem C08_refuted_fsm_guard_arrow_reads_as_assignment :
+  exists p, refutes "fsm-guard-arrow-reads-as-assignment" p /\ parse_tok (fmt_prog true p) = None /\
+            parse_tok (fmt_prog false p) = Some p.
+Proof. exact refuted_ex_guardout. Qed.
+Print Assumptions C08_refuted_fsm_guard_arrow_reads_as_assignment.
+
+(* the witness in full: well-formed, lexically fine, in the class; the text formatter.rs prints; that text does not parse *)
+Theorem C08_refuted_fsm_guard_arrow_witness :
+  wf_prog w_guardout = true /\ lex_ok w_guardout = true /\
+  class_of w_guardout = Some "fsm-guard-arrow-reads-as-assignment" /\
+  render (fmt_prog true w_guardout) =
+    ("#A(x) -> :S(x)" ++ nl ++ "  :T(x)" ++ nl ++ "    ├ z > 1 -> a => 1" ++ nl ++ "    └ * => 1." ++ nl)%string /\
+  parse_tok (fmt_prog true w_guardout) = None /\
+  render (fmt_prog false w_guardout) =
+    ("#A(x) -> :S(x)" ++ nl ++ "  :T(x)" ++ nl ++ "    ├ z > 1 -> a ⇒ 1" ++ nl ++ "    └ * => 1." ++ nl)%string /\
+  parse_tok (fmt_prog false w_guardout) = Some w_guardout.
+Proof. exact refuted_guardout. Qed.
+Print Assumptions C08_refuted_fsm_guard_arrow_witness.
+
+(* Two clashes below the token level that the state machines brought to light (class predicates c_arrwild / c_guardassign,
+   recognised on the tree by [lex_class_of] like comma-swizzle; the judge answers `kf` only when the formatter's text is
+   the canonical text and the implementation's own round trip failed):
+   (a) Formatter::pattern_array joins the parts of an array pattern with blanks; the text of the three-item pattern
+       [a, *, b] is the text of the one-item pattern whose item is the product a * b, which is how the grapheme-level
+       grammar reads it (patterns.rs::pattern_array_item parses an expression); *)
+Theorem C08_refuted_array_pattern_item_then_wildcard :
+  wf_prog w_arrwild = true /\ lex_ok w_arrwild = true /\ defect_free w_arrwild = true /\
+  lex_class_of w_arrwild = Some "array-pattern-item-then-wildcard" /\
+  render (fmt_prog true w_arrwild) = ("y := x?" ++ nl ++ nl ++ "├[a * b] ⇒ 1" ++ nl ++ "└* ⇒ 2." ++ nl ++ nl)%string /\
+  fmt_pat (PArr [IVar "a" None; IWild; IVar "b" None] ANone)
+    = TSym LB :: fmt false (ETerm (EVar "a" None) [(OMul, EVar "b" None)]) ++ [TSym RB].
+Proof. exact clash_arrwild. Qed.
+Print Assumptions C08_refuted_array_pattern_item_then_wildcard.
+
+(* (b) in a guard, `-> a =:= true` (a formula beginning with an assignable target followed by an operator whose text begins
+       with `=`) is read as the statement transition `a = :=…` (the same finding as above, in its lexical form) *)
+Theorem C08_refuted_fsm_guard_arrow_lexical :
+  wf_prog w_guardassign = true /\ lex_ok w_guardassign = true /\ defect_free w_guardassign = true /\
+  lex_class_of w_guardassign = Some "fsm-guard-arrow-reads-as-assignment" /\
+  render (fmt_prog true w_guardassign) =
+    ("#A(x) -> :S(x)" ++ nl ++ "  :T(x)" ++ nl ++ "    ├ z > 1 -> a =:= true" ++ nl ++ "    └ * => 1." ++ nl)%string.
+Proof. exact clash_guardassign. Qed.
+Print Assumptions C08_refuted_fsm_guard_arrow_lexical.
+
+(* non-vacuity of the third round: the Counter machine of docs/reference/state-machine.mec (specification, implementation
+   with a guarded arm and an output arm, instance) plus a second machine with every other form is well-formed, lexically
+   fine, outside the defect classes, round-trips, and has exactly this text *)
+Example C08_example_fsm :
+  let u := fun s => ELit (LNum s) None in let vn := EVar "n" None in let k64 := Some (KScalar "u64") in
+  let S := fun nm ps => FTupS nm (map FExp ps) in
+  let p := [ SFsmSpec "Counter" [("n", k64)] (Some (KScalar "u64"))
+               [(false, "Count", Some [("n", k64)]); (true, "Done", Some [("n", k64)])];
+             SFsmImpl "Counter" [("n", k64)] (S "Count" [vn])
+               [ AGuard (S "Count" [vn])
+                   [(false, FExp (ETerm vn [(OGt, u "0u64")]), [(KNext, S "Count" [ETerm vn [(OSub, u "1u64")]])]);
+                    (true, FExp (ETerm vn [(OEq, u "0u64")]), [(KNext, S "Done" [u "0u64"])])];
+                 ATrans (S "Done" [vn]) [(KOut, FExp vn)] ];
+             SExpr (EFsm "Counter" (Some [(None, u "5u64")]));
+             SFsmSpec "m" [] None [(true, "T", None)];
+             SFsmImpl "m" [("a", None); ("b", Some (KMatrix "u8" []))] (FExp (ELit (LAtom "T") None))
+               [ ATrans (FTupS "P" [FArr [IVar "h" None] (ARest (IVar "t" None)); FTup [FExp vn; FWild]; FWild])
+                   [(KNext, FTupS "P" [FArr [IVar "h" None; IVar "t" None] ANone; FTup [FExp vn; FExp (u "1")]; FExp (ENeg vn)]);
+                    (KAsync, FExp (ELit (LAtom "T") None)); (KOut, FExp (ETerm vn [(OAdd, u "1")]))];
+                 AGuard (FExp (ELit (LAtom "T") None)) [(false, FWild, [(KOut, FExp (u "1"))])] ];
+             SDefine false "y" None (EMat [[EFsm "m" None; EFsm "m" (Some [(None, vn); (Some "k", u "2")])]]) ] in
+  wf_prog p = true /\ lex_ok p = true /\ defect_free p = true /\ lex_class_of p = None /\
+  parse_tok (fmt_prog true p) = Some p /\
+  render (fmt_prog true p) =
+    ("#Counter(n<u64>) ⇒ <u64> :=" ++ nl ++ "    ├ :Count(n<u64>)" ++ nl ++ "    └ :Done(n<u64>)." ++ nl ++ nl ++
+     "#Counter(n<u64>) -> :Count(n)" ++ nl ++ "  :Count(n)" ++ nl ++ "    ├ n > 0u64 -> :Count(n - 1u64)" ++ nl ++
+     "    └ n ⩵ 0u64 -> :Done(0u64)" ++ nl ++ "  :Done(n) => n." ++ nl ++ "#Counter(5u64)" ++ nl ++
+     "#m() :=" ++ nl ++ "    └ :T." ++ nl ++ nl ++
+     "#m(a, b<[u8]>) -> :T" ++ nl ++ "  :P([h | t], (n, *), *) -> :P([h t], (n, 1), -n) ~> :T => n + 1" ++ nl ++
+     "  :T" ++ nl ++ "    ├ * => 1" ++ nl ++ "." ++ nl ++ "y := [#m #m(n, k: 2)]" ++ nl)%string.
+Proof. cbv zeta. repeat split; vm_compute; reflexivity. Qed.
+Print Assumptions C08_example_fsm.
